@@ -60,9 +60,9 @@ FLOORS = {
     'config:list-merge': 0.1,
     'config:depth>=2-override': 0.1,
     'config:file': 0.1,
-    'provider:abstract-mid': 0.001,
-    'provider:collision': 0.0008,
-    'provider:lazy': 0.001,
+    'provider:abstract-mid': 0.0008,
+    'provider:collision': 0.0006,
+    'provider:lazy': 0.0008,
 }
 SHARDS_THOROUGH = 16
 
@@ -471,9 +471,9 @@ _ALIASES = ['a', 'b', 'c', 'x1', 'Prov', 'my-prov', 'zed']
 
 @st.composite
 def provider_spec(draw, maxmods: int):
-    mode = draw(st.sampled_from(['explicit', 'explicit', 'explicit', 'lazy', 'lazy']))
+    mode = draw(st.sampled_from(['explicit', 'lazy']))
     nmods = draw(st.integers(2, maxmods))
-    collide = mode == 'explicit' and draw(st.integers(0, 9)) < 6
+    collide = mode == 'explicit' and draw(st.integers(0, 9)) < 7
     ncoll = draw(st.integers(2, min(3, nmods))) if collide else 0
     aliases = list(draw(st.permutations(_ALIASES)))
     calias = aliases.pop() if collide else None
